@@ -504,8 +504,8 @@ FLOORS["C06"] = {"judged_single_access_transfers": 3000, "tearing_reads": 1_000_
 prop("C08", level="model_checking",
      title="A dirty mark is never lost when marking races with harvesting the bitmap",
      technique="stateless model checking of the real code under a controlled scheduler: a cfg-guarded shim (hook H2) puts a yield point in front of every atomic operation on the bitmap words, exactly one managed thread runs between two yield points, and ALL interleavings of each catalogue program are executed (DFS over choice strings with prefix replay); each execution's API-boundary history is checked for per-page linearizability against a boolean with set / clear / test-and-clear / read plus a quiescent final read; seeded random schedules for larger programs; free-running threads natively, under TSan and under Miri many-seeds",
-     rule="states = scheduler decision points, transitions = atomic steps granted; programs: 12 catalogue programs of 2..3 threads on pages that share one 64-bit word or span two (two markers + harvester, marker range vs harvester, markers + clone, marker spanning words, marker vs reset_range vs harvester, set_bit vs reset_bit, marker vs two harvesters, mark_dirty vs harvest vs is_bit_set, three markers, marker vs reset(), re-mark after harvest, range mark vs range reset) - every interleaving of each is executed (29 147 schedules); random 3-thread programs of up to 12 calls under seeded PCT-style schedules; 2x10^3..10^5 free-running histories. An execution is non-trivial when two different threads touch the same word back-to-back",
-     exhaustive_note="all interleavings (at the granularity of whole atomic operations, sequentially consistent) of the 12 catalogue programs",
+     rule="states = scheduler decision points, transitions = atomic steps granted; programs: 12 hand-written catalogue programs of 2..3 threads on pages that share one 64-bit word or span two (two markers + harvester, marker range vs harvester, markers + clone, marker spanning words, marker vs reset_range vs harvester, set_bit vs reset_bit, marker vs two harvesters, mark_dirty vs harvest vs is_bit_set, three markers, marker vs reset(), re-mark after harvest, range mark vs range reset) plus a systematic family of 44 programs (each of 8 operations X - reset_range, reset_bit, set_bit, mark_range, mark_dirty, harvest, reset(), wide reset_range - issued on an already dirty page while a second thread performs two further read-modify-writes on the same word, in 5 shapes: two marks, mark then harvest, harvest then mark, mark then unmark, same page twice; and 4 three-thread variants with a marker and a harvester) - every interleaving of each is executed (46 947 schedules); random 3-thread programs of up to 12 calls under seeded PCT-style schedules; 2x10^3..10^5 free-running histories. An execution is non-trivial when two different threads touch the same word back-to-back",
+     exhaustive_note="all interleavings (at the granularity of whole atomic operations, sequentially consistent) of the 56 catalogue programs",
      assumptions=["interleavings are explored at atomic-operation granularity under sequential consistency; weaker-than-SC effects are left to Miri's weak-memory emulation and TSan", "the linearizability checker (60 lines, brute force with memoisation, <= 24 operations per page) is trusted", "reset() is modelled as a per-page clear (it is documented as not harvesting)"],
      level_text="Exhaustive exploration of all interleavings of bounded concurrent programs executed on the real implementation (not a model), with a linearizability oracle per execution; sampling beyond the catalogue.",
      level_note="Bounded programs only; the yield points exist only in --cfg vm_memory_verif builds (the shim forwards to std's AtomicU64 with the caller's ordering).",
@@ -532,7 +532,7 @@ def plan_c08(tier, seed):
     return runs
 
 
-FLOORS["C08"] = {"schedules_explored": 29_000, "programs_exhausted": 12, "schedules_with_cross_thread_contention_on_one_word": 20_000, "free_histories": 5000}
+FLOORS["C08"] = {"schedules_explored": 46_000, "programs_exhausted": 56, "schedules_with_cross_thread_contention_on_one_word": 20_000, "free_histories": 5000}
 
 # ----------------------------------------------------------------------------------------------
 prop("C11", level="exploration",
